@@ -1466,3 +1466,367 @@ DT_VARIANTS = [
     V("request-since-minus-date-property", DT_IMPORTS, _prop("    @property\n    def since_before_date(self) -> timedelta | None:\n        since = self.if_modified_since\n        sent = self.date\n\n        if since is None or sent is None:\n            return None\n\n        return since - sent\n")),
 ]
 _split(DT_VARIANTS)
+
+
+# ---------------------------------------------------------------------
+# round 3: logic moved between caller and callee, a local's representation changed, **kwargs built from a table.
+# Own variants of the held-out shapes; for every shape that is accepted, the same shape with the premise broken.
+WR = "wrappers/request.py"
+
+# -- R7.2: the etag scanning loop lives in a generator / a list-building helper (no emptiness test in front of len())
+ETAG_OLD = '''    strong = []
+    weak = []
+    end = len(value)
+    pos = 0
+    while pos < end:
+        match = _etag_re.match(value, pos)
+        if match is None:
+            break
+        is_weak, quoted, raw = match.groups()
+        if raw == "*":
+            return ds.ETags(star_tag=True)
+        elif quoted:
+            raw = quoted
+        if is_weak:
+            weak.append(raw)
+        else:
+            strong.append(raw)
+        pos = match.end()
+    return ds.ETags(strong, weak)
+'''
+ETAG_DEF = "def parse_etags(value: str | None) -> ds.ETags:\n"
+ETAG_GEN_CALLER = '''    strong = []
+    weak = []
+
+    for found in _etag_matches(value):
+        is_weak, quoted, raw = found.groups()
+        if raw == "*":
+            return ds.ETags(star_tag=True)
+        elif quoted:
+            raw = quoted
+        (weak if is_weak else strong).append(raw)
+
+    return ds.ETags(strong, weak)
+'''
+ETAG_GEN = '''def _etag_matches(header: str) -> t.Iterator[t.Match[str]]:
+    cursor = 0
+
+    while cursor < len(header):
+        found = _etag_re.match(header, cursor)
+
+        if found is None:
+            return
+
+        yield found
+        _, cursor = found.span()
+
+
+'''
+ETAG_GEN_TRUE = '''def _etag_matches(header: str) -> t.Iterator[t.Match[str]]:
+    size = len(header)
+    cursor = 0
+
+    while True:
+        if cursor >= size:
+            break
+
+        found = _etag_re.match(header, cursor)
+
+        if not found:
+            break
+
+        cursor = found.end()
+        yield found
+
+
+'''
+ETAG_LIST_CALLER = '''    star, strong, weak = _scan_etags(value)
+
+    if star:
+        return ds.ETags(star_tag=True)
+
+    return ds.ETags(strong, weak)
+'''
+ETAG_LIST = '''def _scan_etags(text: str) -> tuple[bool, list[str], list[str]]:
+    tags: tuple[list[str], list[str]] = ([], [])
+    size = len(text)
+    at = 0
+
+    while at < size:
+        m = _etag_re.match(text, at)
+
+        if m is None:
+            break
+
+        is_weak, quoted, raw = m.groups()
+
+        if raw == "*":
+            return True, [], []
+
+        tags[1 if is_weak else 0].append(quoted or raw)
+        at = m.end()
+
+    return False, tags[0], tags[1]
+
+
+'''
+ETAG_TAIL_OPTIONAL = (H, "(?:\\s*,\\s*|$)')", "(?:\\s*,\\s*)?')")
+R3_ETAG = [
+    V("r3-etag-generator-yields-matches-span-cursor", (H, ETAG_OLD, ETAG_GEN_CALLER), (H, ETAG_DEF, ETAG_GEN + ETAG_DEF)),
+    V("r3-etag-generator-while-true-advance-before-yield", (H, ETAG_OLD, ETAG_GEN_CALLER), (H, ETAG_DEF, ETAG_GEN_TRUE + ETAG_DEF)),
+    V("r3-etag-list-helper-len-without-emptiness-test", (H, ETAG_OLD, ETAG_LIST_CALLER), (H, ETAG_DEF, ETAG_LIST + ETAG_DEF)),
+    V("M:r3-etag-generator-cursor-from-span-start", (H, ETAG_OLD, ETAG_GEN_CALLER), (H, ETAG_DEF, ETAG_GEN.replace("_, cursor = found.span()", "cursor, _ = found.span()") + ETAG_DEF), expect="R7.2"),
+    V("M:r3-etag-generator-regex-tail-optional", (H, ETAG_OLD, ETAG_GEN_CALLER), (H, ETAG_DEF, ETAG_GEN + ETAG_DEF), ETAG_TAIL_OPTIONAL, expect="R7.2"),
+    V("M:r3-etag-generator-advance-only-after-weak", (H, ETAG_OLD, ETAG_GEN_CALLER), (H, ETAG_DEF, ETAG_GEN_TRUE.replace("        cursor = found.end()\n", "        if found.group(1):\n            cursor = found.end()\n") + ETAG_DEF), expect="R7.2"),
+    V("M:r3-etag-list-helper-bound-is-not-the-length", (H, ETAG_OLD, ETAG_LIST_CALLER), (H, ETAG_DEF, ETAG_LIST.replace("    size = len(text)\n", "    size = len(text) + 1\n") + ETAG_DEF), expect="R7.2"),
+]
+_split(R3_ETAG)
+
+# -- R7.1: the quoted-string scan of parse_options_header in a helper that returns an index or a `not found` sentinel;
+# the value put into `parts` is non-empty because the index is >= 2 once the sentinel is excluded
+QS_OLD = '''            elif rest[:1] == '"':
+                pos = 1
+                length = len(rest)
+
+                while pos < length:
+                    if rest[pos : pos + 2] in {"\\\\\\\\", '\\\\"'}:
+                        # Consume escaped slashes and quotes.
+                        pos += 2
+                    elif rest[pos] == '"':
+                        # Stop at an unescaped quote.
+                        parts.append((pk, rest[: pos + 1]))
+                        rest = rest[pos + 1 :]
+                        break
+                    else:
+                        # Consume any other character.
+                        pos += 1
+'''
+QS_DEF = "def parse_options_header(value: str | None) -> tuple[str, dict[str, str]]:\n"
+QS_HELPER = '''def _closing_quote(text: str) -> int:
+    """index of the unescaped quote that closes the quoted string ``text`` starts with, -1 without one."""
+    at = 1
+
+    while at < len(text):
+        if text[at : at + 2] in {"\\\\\\\\", '\\\\"'}:
+            at += 2
+        elif text[at] == '"':
+            return at
+        else:
+            at += 1
+
+    return -1
+
+
+'''
+QS_CALLER_GE = '''            elif rest[:1] == '"':
+                stop = _closing_quote(rest)
+
+                if stop >= 0:
+                    parts.append((pk, rest[: stop + 1]))
+                    rest = rest[stop + 1 :]
+'''
+QS_CALLER_WALRUS = '''            elif rest[:1] == '"' and (stop := _closing_quote(rest)) != -1:
+                parts.append((pk, rest[: stop + 1]))
+                rest = rest[stop + 1 :]
+'''
+QS_CALLER_LT_CONTINUE = '''            elif rest.startswith('"'):
+                stop = _closing_quote(rest)
+                cut = 0 if stop < 0 else stop + 1
+
+                if cut:
+                    parts.append((pk, rest[:cut]))
+                    rest = rest[cut:]
+'''
+QS_HELPER_NONE = QS_HELPER.replace("-> int:", "-> int | None:").replace("            return at\n", "            return at + 1\n").replace("    return -1\n", "    return None\n")
+QS_CALLER_NONE = '''            elif rest[:1] == '"':
+                cut = _closing_quote(rest)
+
+                if cut is not None:
+                    parts.append((pk, rest[:cut]))
+                    rest = rest[cut:]
+'''
+QS_CALLER_UNCHECKED = '''            elif rest[:1] == '"':
+                stop = _closing_quote(rest)
+                parts.append((pk, rest[: stop + 1]))
+                rest = rest[stop + 1 :]
+'''
+R3_QUOTED = [
+    V("r3-closing-quote-helper-minus-one-tested-ge-zero", (H, QS_OLD, QS_CALLER_GE), (H, QS_DEF, QS_HELPER + QS_DEF)),
+    V("r3-closing-quote-helper-walrus-not-equal", (H, QS_OLD, QS_CALLER_WALRUS), (H, QS_DEF, QS_HELPER + QS_DEF)),
+    V("r3-closing-quote-helper-conditional-cut-truthiness", (H, QS_OLD, QS_CALLER_LT_CONTINUE), (H, QS_DEF, QS_HELPER + QS_DEF)),
+    V("r3-closing-quote-helper-none-sentinel", (H, QS_OLD, QS_CALLER_NONE), (H, QS_DEF, QS_HELPER_NONE + QS_DEF)),
+    V("M:r3-closing-quote-sentinel-unchecked", (H, QS_OLD, QS_CALLER_UNCHECKED), (H, QS_DEF, QS_HELPER + QS_DEF), expect="R7.1"),
+    V("M:r3-closing-quote-wrong-sentinel-tested", (H, QS_OLD, QS_CALLER_GE.replace("stop >= 0", "stop != 0")), (H, QS_DEF, QS_HELPER + QS_DEF), expect="R7.1"),
+    V("M:r3-closing-quote-none-sentinel-index-before-the-quote", (H, QS_OLD, QS_CALLER_NONE), (H, QS_DEF, QS_HELPER_NONE.replace("            return at + 1\n", "            return at - 1\n") + QS_DEF), expect="R7.1"),
+    V("M:r3-closing-quote-cut-falls-back-to-zero-unchecked", (H, QS_OLD, QS_CALLER_LT_CONTINUE.replace("                if cut:\n                    parts.append((pk, rest[:cut]))\n                    rest = rest[cut:]\n", "                parts.append((pk, rest[:cut]))\n                rest = rest[cut:]\n")), (H, QS_DEF, QS_HELPER + QS_DEF), expect="R7.1"),
+]
+_split(R3_QUOTED)
+
+# -- R7.1 silent-mode premise: what make_form_data_parser hands to FormDataParser(silent=...) when the keyword
+# arguments are built as a mapping
+MK_OLD = '''        return self.form_data_parser_class(
+            stream_factory=self._get_file_stream,
+            max_form_memory_size=self.max_form_memory_size,
+            max_content_length=self.max_content_length,
+            max_form_parts=self.max_form_parts,
+            cls=self.parameter_storage_class,
+        )
+'''
+MK_COMP = '''        limits = {
+            name: getattr(self, name)
+            for name in ("max_form_memory_size", "max_content_length", "max_form_parts")
+        }
+        return self.form_data_parser_class(
+            stream_factory=self._get_file_stream,
+            cls=self.parameter_storage_class,
+            **limits,
+        )
+'''
+MK_ZIP = '''        names = ("max_form_memory_size", "max_content_length", "max_form_parts")
+        options = dict(zip(names, (self.max_form_memory_size, self.max_content_length, self.max_form_parts)))
+        options.update(stream_factory=self._get_file_stream, cls=self.parameter_storage_class)
+        make = self.form_data_parser_class
+        return make(**options)
+'''
+MK_HELPER = '''        return self.form_data_parser_class(**self._form_parser_options())
+
+    def _form_parser_options(self) -> dict[str, t.Any]:
+        options: dict[str, t.Any] = {
+            "stream_factory": self._get_file_stream,
+            "cls": self.parameter_storage_class,
+        }
+
+        for attr, key in (
+            ("max_form_memory_size", "max_form_memory_size"),
+            ("max_content_length", "max_content_length"),
+            ("max_form_parts", "max_form_parts"),
+        ):
+            options[key] = getattr(self, attr)
+
+        return options
+'''
+MK_TRUE = MK_OLD.replace("            cls=self.parameter_storage_class,\n", "            cls=self.parameter_storage_class,\n            silent=True,\n")
+MK_MERGE = '''        fixed = {"stream_factory": self._get_file_stream, "cls": self.parameter_storage_class}
+        limits = dict.fromkeys(_PARSER_LIMITS)
+
+        for name in limits:
+            limits[name] = getattr(self, name)
+
+        return self.form_data_parser_class(**(fixed | limits))
+'''
+MK_MERGE_CONST = (WR, "class Request(_SansIORequest):\n", '_PARSER_LIMITS = ("max_form_memory_size", "max_content_length", "max_form_parts")\n\n\nclass Request(_SansIORequest):\n')
+MK_POSITIONAL_FALSE = '''        return self.form_data_parser_class(
+            self._get_file_stream,
+            self.max_form_memory_size,
+            self.max_content_length,
+            self.parameter_storage_class,
+            False,
+            max_form_parts=self.max_form_parts,
+        )
+'''
+R3_SILENT = [
+    V("r3-parser-kwargs-dict-comprehension-over-names", (WR, MK_OLD, MK_COMP)),
+    V("r3-parser-kwargs-dict-zip-then-update-aliased-class", (WR, MK_OLD, MK_ZIP)),
+    V("r3-parser-kwargs-built-by-a-private-method", (WR, MK_OLD, MK_HELPER)),
+    V("r3-parser-silent-true-written-out", (WR, MK_OLD, MK_TRUE)),
+    V("r3-parser-kwargs-fromkeys-module-constant-merged", (WR, MK_OLD, MK_MERGE), MK_MERGE_CONST),
+    V("M:r3-parser-kwargs-comprehension-and-silent-false", (WR, MK_OLD, MK_COMP.replace("            **limits,\n", "            **limits,\n            **{\"silent\": False},\n")), expect="R7.1"),
+    V("M:r3-parser-kwargs-update-silent-from-shallow", (WR, MK_OLD, MK_ZIP.replace("cls=self.parameter_storage_class)", "cls=self.parameter_storage_class, silent=not self.shallow)")), expect="R7.1"),
+    V("M:r3-parser-kwargs-helper-table-carries-silent", (WR, MK_OLD, MK_HELPER.replace('            "cls": self.parameter_storage_class,\n', '            "cls": self.parameter_storage_class,\n            "silent": False,\n')), expect="R7.1"),
+    V("M:r3-parser-silent-false-positional", (WR, MK_OLD, MK_POSITIONAL_FALSE), expect="R7.1"),
+    V("M:r3-parser-kwargs-constant-names-include-silent", (WR, MK_OLD, MK_MERGE), (WR, "class Request(_SansIORequest):\n", '_PARSER_LIMITS = ("max_form_memory_size", "max_content_length", "max_form_parts", "silent")\n\n\nclass Request(_SansIORequest):\n'), expect="R7.1"),
+]
+_split(R3_SILENT)
+
+# -- the same scan with the index unpacked from a (found, index) result (path-wise relation between the components), and
+# as a str.find from a moving position (the hit is not in front of the position searched from)
+QS_HELPER_PAIR = '''def _scan_quoted(text: str) -> tuple[bool, int]:
+    at = 1
+
+    while at < len(text):
+        if text[at : at + 2] in {"\\\\\\\\", '\\\\"'}:
+            at += 2
+        elif text[at] == '"':
+            return True, at + 1
+        else:
+            at += 1
+
+    return False, 0
+
+
+'''
+QS_CALLER_PAIR = '''            elif rest[:1] == '"':
+                closed, cut = _scan_quoted(rest)
+
+                if closed:
+                    parts.append((pk, rest[:cut]))
+                    rest = rest[cut:]
+'''
+QS_CALLER_FIND = '''            elif rest[:1] == '"':
+                pos = 1
+
+                while True:
+                    stop = rest.find('"', pos)
+
+                    if stop < 0:
+                        break
+
+                    back = len(rest[pos:stop]) - len(rest[pos:stop].rstrip("\\\\"))
+
+                    if back % 2 == 0:
+                        parts.append((pk, rest[: stop + 1]))
+                        rest = rest[stop + 1 :]
+                        break
+
+                    pos = stop + 1
+'''
+R3_QUOTED2 = [
+    V("r3-quoted-scan-helper-returns-flag-and-index", (H, QS_OLD, QS_CALLER_PAIR), (H, QS_DEF, QS_HELPER_PAIR + QS_DEF)),
+    V("r3-quoted-scan-find-from-moving-position", (H, QS_OLD, QS_CALLER_FIND)),
+    V("M:r3-quoted-scan-flag-tested-inverted", (H, QS_OLD, QS_CALLER_PAIR.replace("                if closed:\n", "                if not closed:\n")), (H, QS_DEF, QS_HELPER_PAIR + QS_DEF), expect="R7.1"),
+    V("M:r3-quoted-scan-flag-true-with-index-before-quote", (H, QS_OLD, QS_CALLER_PAIR), (H, QS_DEF, QS_HELPER_PAIR.replace("            return True, at + 1\n", "            return True, at - 1\n") + QS_DEF), expect="R7.1"),
+    V("M:r3-quoted-scan-find-restarts-at-the-hit", (H, QS_OLD, QS_CALLER_FIND.replace("                    pos = stop + 1\n", "                    pos = stop\n")), expect="R7.2"),
+    V("M:r3-quoted-scan-find-miss-not-excluded", (H, QS_OLD, QS_CALLER_FIND.replace("                    if stop < 0:\n", "                    if stop < -1:\n")), expect="R7.1"),
+]
+_split(R3_QUOTED2)
+
+# -- the etag cursor advanced by the length of the whole match / the text shortened by the whole match (an anchored
+# attempt's whole match is as long as the distance its end() moves; not so for search())
+ETAG_BODY = '''        is_weak, quoted, raw = match.groups()
+        if raw == "*":
+            return ds.ETags(star_tag=True)
+        elif quoted:
+            raw = quoted
+        if is_weak:
+            weak.append(raw)
+        else:
+            strong.append(raw)
+'''
+ETAG_LEN_GROUP = '''    strong = []
+    weak = []
+    end = len(value)
+    pos = 0
+    while pos < end:
+        match = _etag_re.match(value, pos)
+        if match is None:
+            break
+''' + ETAG_BODY + '''        pos += len(match.group())
+    return ds.ETags(strong, weak)
+'''
+ETAG_REMOVEPREFIX = '''    strong = []
+    weak = []
+    rest = value
+    while len(rest) > 0:
+        match = _etag_re.match(rest)
+        if match is None:
+            break
+''' + ETAG_BODY + '''        rest = rest.removeprefix(match[0])
+    return ds.ETags(strong, weak)
+'''
+R3_ETAG2 = [
+    V("r3-etag-cursor-plus-length-of-whole-match", (H, ETAG_OLD, ETAG_LEN_GROUP)),
+    V("r3-etag-text-shortened-by-whole-match-prefix", (H, ETAG_OLD, ETAG_REMOVEPREFIX)),
+    V("M:r3-etag-cursor-plus-length-regex-tail-optional", (H, ETAG_OLD, ETAG_LEN_GROUP), ETAG_TAIL_OPTIONAL, expect="R7.2"),
+    V("M:r3-etag-text-shortened-by-searched-match", (H, ETAG_OLD, ETAG_REMOVEPREFIX.replace("_etag_re.match(rest)", "_etag_re.search(rest)")), expect="R7.2"),
+]
+_split(R3_ETAG2)
